@@ -67,14 +67,15 @@ Record fin := mkFin { fz : bool; fy : bool; fw : N; fbody : bytes }.
 Definition fresh (z : bool) : cur := mkCur z 0 [] 0.
 Definition finalize (c : cur) (y : bool) : fin := mkFin (cz c) y (cw c) (cbody c).
 
-Inductive eres := EOk (c : cur) (acc : list fin) | EPanic | ELoop.
+Inductive eres := EOk (fs : list fin) (c : cur) | EPanic | ELoop.
+Definition cons_fin (f : fin) (r : eres) : eres :=
+  match r with EOk fs c => EOk (f :: fs) c | e => e end.
 
-(* the inner "for" loop of Encode for one OBU.  [fuel] bounds the iterations (ELoop = the Go loop
-   would not terminate); obu[:fragmentLen] is a checked slice (EPanic).
-   The two "nothing can be appended" branches close the packet with Y (and open the next with Z)
-   in the code that exists; with [fx] they close it without. *)
-Fixpoint enc_obu (fx : bool) (fuel : list N) (max mfl : N) (last : bool) (obu : bytes)
-         (c : cur) (acc : list fin) : eres :=
+(* the inner "for" loop of Encode for one OBU: the packets it closes, and the packet left open.
+   [fuel] bounds the iterations (ELoop = the Go loop would not terminate); obu[:fragmentLen] is a
+   checked slice (EPanic).  The two "nothing can be appended" branches close the packet with Y (and
+   open the next with Z) in the code that exists; with [fx] they close it without. *)
+Fixpoint enc_obu (fx : bool) (fuel : list N) (max mfl : N) (last : bool) (obu : bytes) (c : cur) : eres :=
   match fuel with
   | [] => ELoop
   | _ :: fuel' =>
@@ -83,32 +84,36 @@ Fixpoint enc_obu (fx : bool) (fuel : list N) (max mfl : N) (last : bool) (obu : 
     if last && (ck c <? 3) then
       (* omitSize *)
       if obuLen <=? avail then
-        EOk (mkCur (cz c) (N.lor (cw c) (ck c + 1)) (cbody c ++ obu) (ck c)) acc
+        EOk [] (mkCur (cz c) (N.lor (cw c) (ck c + 1)) (cbody c ++ obu) (ck c))
       else if 0 <? avail then
         (* obu[:avail]: avail < obuLen here *)
-        enc_obu fx fuel' max mfl last (ndrop avail obu) (fresh true)
-                (acc ++ [mkFin (cz c) true (N.lor (cw c) (ck c + 1)) (cbody c ++ ntake avail obu)])
+        cons_fin (mkFin (cz c) true (N.lor (cw c) (ck c + 1)) (cbody c ++ ntake avail obu))
+                 (enc_obu fx fuel' max mfl last (ndrop avail obu) (fresh true))
       else
-        enc_obu fx fuel' max mfl last obu (fresh (negb fx)) (acc ++ [finalize c (negb fx)])
+        cons_fin (finalize c (negb fx)) (enc_obu fx fuel' max mfl last obu (fresh (negb fx)))
     else
       let ls := leb_size obuLen in
       if obuLen + ls <=? avail then
-        EOk (mkCur (cz c) (cw c) (cbody c ++ leb_enc obuLen ++ obu) (ck c + 1)) acc
+        EOk [] (mkCur (cz c) (cw c) (cbody c ++ leb_enc obuLen ++ obu) (ck c + 1))
       else if mfl <? avail then
         let fl := avail - mfl in
         if obuLen <? fl then EPanic else
-        enc_obu fx fuel' max mfl last (ndrop fl obu) (fresh true)
-                (acc ++ [mkFin (cz c) true (cw c) (cbody c ++ leb_enc fl ++ ntake fl obu)])
+        cons_fin (mkFin (cz c) true (cw c) (cbody c ++ leb_enc fl ++ ntake fl obu))
+                 (enc_obu fx fuel' max mfl last (ndrop fl obu) (fresh true))
       else
-        enc_obu fx fuel' max mfl last obu (fresh (negb fx)) (acc ++ [finalize c (negb fx)])
+        cons_fin (finalize c (negb fx)) (enc_obu fx fuel' max mfl last obu (fresh (negb fx)))
   end.
 
-Fixpoint enc_obus (fx : bool) (max mfl : N) (obus : list bytes) (c : cur) (acc : list fin) : eres :=
+Fixpoint enc_obus (fx : bool) (max mfl : N) (obus : list bytes) (c : cur) : eres :=
   match obus with
-  | [] => EOk c acc
+  | [] => EOk [] c
   | o :: t =>
-    match enc_obu fx (0 :: 0 :: o) max mfl (match t with [] => true | _ => false end) o c acc with
-    | EOk c' acc' => enc_obus fx max mfl t c' acc'
+    match enc_obu fx (0 :: 0 :: o) max mfl (match t with [] => true | _ => false end) o c with
+    | EOk fs c' =>
+      match enc_obus fx max mfl t c' with
+      | EOk fs2 c2 => EOk (fs ++ fs2) c2
+      | e => e
+      end
     | e => e
     end
   end.
@@ -127,8 +132,8 @@ Fixpoint mk_pkts (seq : N) (n : bool) (fs : list fin) : list packet :=
 
 (* all finished packets of one Encode call, or None when Go would panic / not terminate *)
 Definition enc_fins (fx : bool) (max : N) (obus : list bytes) : option (list fin) :=
-  match enc_obus fx max (leb_size max) obus (fresh false) [] with
-  | EOk c acc => Some (acc ++ [finalize c false])
+  match enc_obus fx max (leb_size max) obus (fresh false) with
+  | EOk fs c => Some (fs ++ [finalize c false])
   | _ => None
   end.
 
@@ -205,57 +210,67 @@ Definition split_last {A} (l : list A) : option (list A * A) :=
 
 Inductive ores := OErr | OMore | OPanic | OObus (obus : list bytes).
 
+(* decodeOBUs after the element loop: W check, continuation (Z) part, "will continue" (Y) part.
+   In the code that exists a packet without Z leaves pending fragments in place; with [dfx] it
+   drops them. *)
+Definition post_parse (dfx : bool) (d : dstate) (seq : N) (z y : bool) (w : N) (obus : list bytes)
+  : dstate * ores :=
+  if negb (w =? 0) && negb (nlen obus =? w) then (d, OErr) else
+  (* first OBU is continuation of previous one *)
+  let zr : dstate * option ores * list bytes :=
+    if z then
+      if dsize d =? 0 then (d, Some OErr, [])
+      else if negb (seq =? dnext d) then (reset_frags d, Some OErr, [])
+      else match obus with
+           | [] => (d, Some OPanic, [])                                (* obus[0] *)
+           | o0 :: rest =>
+             let size' := dsize d + nlen o0 in
+             if cap_size <? size' then (reset_frags d, Some OErr, [])
+             else
+               let d1 := mkD (dfrags d ++ [o0]) size' (seq_next (dnext d)) (dbuf d) (dbuflen d) (dbufsize d) in
+               if (nlen obus =? 1) && y then (d1, Some OMore, [])
+               else match join (dfrags d1) size' with
+                    | None => (d1, Some OPanic, [])
+                    | Some j => (reset_frags d1, None, j :: rest)
+                    end
+           end
+    else ((if dfx then reset_frags d else d), None, obus) in
+  match zr with
+  | (d1, Some r, _) => (d1, r)
+  | (d1, None, obus1) =>
+    (* last OBU will continue in next packet *)
+    if y then
+      match split_last obus1 with
+      | None => (d1, OPanic)                                           (* obus[len(obus)-1] *)
+      | Some (init, l) =>
+        let d2 := mkD (dfrags d1 ++ [l]) (nlen l) (seq_next seq) (dbuf d1) (dbuflen d1) (dbufsize d1) in
+        if nlen init =? 0 then (d2, OMore) else (d2, OObus init)
+      end
+    else (d1, OObus obus1)
+  end.
+
+(* decodeOBUs on a payload split into aggregation header and the rest *)
+Definition decode_body (dfx : bool) (d : dstate) (seq : N) (h : N) (body : bytes) : dstate * ores :=
+  let z := (h / 128) mod 2 =? 1 in
+  let y := (h / 64) mod 2 =? 1 in
+  let w := (h / 16) mod 4 in
+  match parse_obus body w body [] with
+  | PErr => (reset_frags d, OErr)
+  | PPanic => (d, OPanic)
+  | POk obus => post_parse dfx d seq z y w obus
+  end.
+
 Definition decode_obus (dfx : bool) (d : dstate) (p : packet) : dstate * ores :=
   let pl := ppayload p in
   if nlen pl <? 2 then (d, OErr) else
   match pl with
   | [] => (d, OPanic)
-  | h :: body =>
-    let z := (h / 128) mod 2 =? 1 in
-    let y := (h / 64) mod 2 =? 1 in
-    let w := (h / 16) mod 4 in
-    match parse_obus body w body [] with
-    | PErr => (reset_frags d, OErr)
-    | PPanic => (d, OPanic)
-    | POk obus =>
-      if negb (w =? 0) && negb (nlen obus =? w) then (d, OErr) else
-      (* first OBU is continuation of previous one *)
-      let zr : dstate * option ores * list bytes :=
-        if z then
-          if dsize d =? 0 then (d, Some OErr, [])
-          else if negb (pseq p =? dnext d) then (reset_frags d, Some OErr, [])
-          else match obus with
-               | [] => (d, Some OPanic, [])                                (* obus[0] *)
-               | o0 :: rest =>
-                 let size' := dsize d + nlen o0 in
-                 if cap_size <? size' then (reset_frags d, Some OErr, [])
-                 else
-                   let d1 := mkD (dfrags d ++ [o0]) size' (seq_next (dnext d)) (dbuf d) (dbuflen d) (dbufsize d) in
-                   if (nlen obus =? 1) && y then (d1, Some OMore, [])
-                   else match join (dfrags d1) size' with
-                        | None => (d1, Some OPanic, [])
-                        | Some j => (reset_frags d1, None, j :: rest)
-                        end
-               end
-        else ((if dfx then reset_frags d else d), None, obus) in
-      match zr with
-      | (d1, Some r, _) => (d1, r)
-      | (d1, None, obus1) =>
-        (* last OBU will continue in next packet *)
-        if y then
-          match split_last obus1 with
-          | None => (d1, OPanic)                                           (* obus[len(obus)-1] *)
-          | Some (init, l) =>
-            let d2 := mkD (dfrags d1 ++ [l]) (nlen l) (seq_next (pseq p)) (dbuf d1) (dbuflen d1) (dbufsize d1) in
-            if nlen init =? 0 then (d2, OMore) else (d2, OObus init)
-          end
-        else (d1, OObus obus1)
-      end
-    end
+  | h :: body => decode_body dfx d (pseq p) h body
   end.
 
-Definition dec_g (dfx : bool) (d : dstate) (p : packet) : dstate * dres (list bytes) :=
-  match decode_obus dfx d p with
+(* Decode after decodeOBUs *)
+Definition finish (marker : bool) (r : dstate * ores) : dstate * dres (list bytes) :=
+  match r with
   | (d1, OErr) => (d1, DErr)
   | (d1, OMore) => (d1, DMore)
   | (d1, OPanic) => (d1, DPanic)
@@ -265,9 +280,12 @@ Definition dec_g (dfx : bool) (d : dstate) (p : packet) : dstate * dres (list by
     let add := tu_size obus in
     if cap_size <? dbufsize d1 + add then (clear_buf d1, DErr) else
     let d2 := mkD (dfrags d1) (dsize d1) (dnext d1) (dbuf d1 ++ obus) (dbuflen d1 + l) (dbufsize d1 + add) in
-    if negb (pmarker p) then (d2, DMore)
+    if negb marker then (d2, DMore)
     else (clear_buf d2, DFrame (dbuf d2))
   end.
+
+Definition dec_g (dfx : bool) (d : dstate) (p : packet) : dstate * dres (list bytes) :=
+  finish (pmarker p) (decode_obus dfx d p).
 
 Fixpoint dec_run_g (dfx : bool) (d : dstate) (ps : list packet) : dstate * list (dres (list bytes)) :=
   match ps with
